@@ -53,6 +53,9 @@ def correspondence(ctx):
                 t0 = s.lstrip("vV")
                 # also the spelling without the hyphen (1.2.3rc1 is read as 1.2.3-rc1) and with a leading v
                 texts = [t0] + ([t0.replace("-", "", 1)] if "-" in t0 and rng.random() < 0.5 else [])
+                if "-" in t0 and rng.random() < 0.4:
+                    # ... and with the operator's own character inside the version text (1.2.3~rc1 is read as 1.2.3-rc1)
+                    texts.append(t0.replace("-", prefix[0], 1))
                 for t in texts:
                     try:
                         start = cls(t)
